@@ -192,18 +192,50 @@ def _wrap_tlp(log: list):
     return undo
 
 
+def _rename_case(case, old, new):
+    def rt(t):
+        return {"c": {(new if k == old else k): v for k, v in t["c"].items()}, "k": t["k"]}
+    c = dict(case)
+    for key in ("terms", "ctx", "H"):
+        if key in c:
+            c[key] = [rt(t) for t in c[key]]
+    if "t" in c:
+        c["t"] = rt(c["t"])
+    c["xs"] = [new if x == old else x for x in c["xs"]]
+    return c
+
+
+def _underscore(rng, case):
+    ts = [case["t"]] if case["kind"] == "tactic" else case["terms"]
+    names = sorted(set(G.names_of(ts, case.get("H", case.get("ctx", []))) + case["xs"]))
+    free = [n for n in names if n not in case["xs"]]
+    pool = free if (free and rng.random() < 0.8) else names
+    if not pool:
+        return case
+    c = _rename_case(case, rng.choice(pool), "_")
+    c["tag"] = "uscore"
+    if c["kind"] == "tactic":
+        if rng.random() < 0.6:
+            c["k"] = 3
+    elif rng.random() < 0.5:
+        c["order"] = [3] if rng.random() < 0.6 else [3, 1, 2]
+    return c
+
+
 class C04(Check):
     pid = "C04"
     title = "Variable elimination is implication-preserving for every tactic order"
     level_text = ("Lean theorems transform_refine_sound / transform_relax_sound (the whole _transform loop, any tactic order, any tactics that are sound, all list sizes), "
-                  "elimRefine_sound / elimRelax_sound / elimRelax_no_elim_vars, tactic2_sound, tactic4_sound (substitution chains of any depth), tactic5_sound, trivial and declining tactics, and "
-                  "reduceWith_sound_of_witness for context reduction (tactics 1/3/5: sound whenever the multiplier vector has the right sign, which the driver "
-                  "certifies per call); executable models of all five tactics, the dispatcher and both elimination entry points tied to polyhedra.py by structural "
+                  "elimRefine_sound / elimRelax_sound / elimRelax_no_elim_vars, and soundness of EVERY entry of the real tactic table (driver_tactics_sound: tactic1_sound — Kaykobad "
+                  "context reduction through exact Gauss-Jordan, no hypothesis; tactic2_sound; tactic3_sound — needs the auxiliary variable to be fresh, read off the source; "
+                  "tactic4_sound — substitution chains of any depth, needs the sign of isolate_variable, read off the source; tactic5_sound; trivial and declining tactics), hence "
+                  "elimRefine_sound_real / elimRelax_sound_real for every tactic order; executable models of all five tactics, the dispatcher and both elimination entry points tied to polyhedra.py by structural "
                   "correspondence (result terms at 1e-9, tactic numbers); judge: exact certified LP entailment of the implementation's own results.")
     lean_modules = ["Pacti.Props.C04"]
     theorems = ["Pacti.C04.transform_refine_sound", "Pacti.C04.transform_relax_sound", "Pacti.C04.elimRefine_sound", "Pacti.C04.elimRelax_sound",
                 "Pacti.C04.elimRelax_no_elim_vars", "Pacti.C04.tactic2_sound", "Pacti.C04.tactic4_sound", "Pacti.C04.isolate_sign_ok", "Pacti.C04.tactic5_sound", "Pacti.C04.tactic6_sound",
-                "Pacti.C04.driver_tactics_sound", "Pacti.C04.decline_leaves_term"]
+                "Pacti.C04.tactic1_sound", "Pacti.C04.tactic3_sound", "Pacti.C04.tactic3_fresh_ok",
+                "Pacti.C04.driver_tactics_sound", "Pacti.C04.elimRefine_sound_real", "Pacti.C04.elimRelax_sound_real", "Pacti.C04.decline_leaves_term"]
     quick_n = 1400
     thorough_n = 50000
     judge_sample = 300
@@ -215,8 +247,8 @@ class C04(Check):
         "tactic 5: the set of LP-active rows is solver dependent; the implementation's set is used if the driver verifies it is admissible",
     ]
     assumptions = ["floats denote exact rationals; numeric reading of the property (box 1000, 1e-4 relative tolerance)"]
-    min_branches = {"tactic1:ok": 20, "tactic2:ok": 20, "tactic3:ok": 5, "tactic4:ok": 30, "tactic5:ok": 20, "tactic:declined": 100,
-                    "elim:refine": 100, "elim:relax": 100}
+    min_branches = {"tactic1:ok": 20, "tactic2:ok": 12, "tactic3:ok": 5, "tactic4:ok": 15, "tactic5:ok": 12, "tactic:declined": 100,
+                    "elim:refine": 100, "elim:relax": 100, "uscore": 60, "uscore:tactic3-applied": 2, "xs-dup": 10}
 
     def generate(self, rng, n, tier):
         out = []
@@ -237,6 +269,15 @@ class C04(Check):
                     order = rng.sample([1, 2, 3, 4, 5], rng.randint(1, 5))
                 extra = G.rtl(rng, KEEP, rng.randint(0, 1)) if rng.random() < 0.3 else []
                 out.append({"kind": "elim", "terms": terms + extra, "ctx": ctx, "xs": xs, "refine": refine, "simplify": rng.random() < 0.5, "order": order})
+            r = rng.random()
+            if r < 0.12:
+                # a user variable that is called "_" (the name tactic 3 used to reserve for its auxiliary variable)
+                out[-1] = _underscore(rng, out[-1])
+            elif r < 0.15:
+                # a repeated entry in the variables to eliminate
+                c = out[-1]
+                c["xs"] = c["xs"] + [rng.choice(c["xs"])]
+                c["tag"] = "xs-dup"
         return out
 
     def run_impl(self, case):
@@ -362,6 +403,12 @@ class C04(Check):
                 b.append(f"elim:used{k}")
         if model and model.get("hint_ok") is False:
             b.append("hint-rejected")
+        if case.get("tag") == "uscore":
+            b.append("uscore")
+            if (case["kind"] == "tactic" and case["k"] == 3 and impl.get("ok") is not None) or 3 in impl.get("tactics", []):
+                b.append("uscore:tactic3-applied")
+        if case.get("tag") == "xs-dup":
+            b.append("xs-dup")
         return b
 
     def nontrivial(self, case, impl):
